@@ -155,6 +155,12 @@ func VX_C14_Races(args []int) {
 			vxAssert(!s.Health(), "[C03] a frame of an unsupported type is answered by disconnecting its own session")
 			vxAssert(s2.Health() && c2.nWrites() == 2, "[C06] and every other session keeps working")
 		}()
+	case 16: // the caller reads the cost of a call as soon as it is done, while the reader finishes delivering the reply
+		var r1 []byte
+		c1 := s.AsyncCall("/a", []byte("1"), &r1, make(chan CallCmd, 1))
+		conn.feed(vxFrame(TypeReply, c1.Output().Seq(), "", []byte("r1")))
+		run(func() { _ = c1.CostTime(); _ = c1.StatusOK() })
+		n = 1
 	case 6: // call vs remote close
 		run(func() { s.AsyncCall("/a", []byte("1"), new([]byte), make(chan CallCmd, 1)) })
 		conn.end()
